@@ -38,7 +38,7 @@ func init() {
 		Trusted: trustedBase,
 		Assume:  []string{"that the hint's index is the index of the hinted block (arithmetic, C05/C20)"},
 		Run: func(c *Ctx) {
-			ruleAlloc(c, "C07.", map[string]bool{"HINT": true})
+			ruleAlloc(c, "C07.", map[string]bool{"HINT": true, "SAMEINDEX": true}) // the block returned is the conversion of the hinted index
 			ruleLinMap(c, "C07.") // a hint at either end of the range must convert to its own index
 			ruleHintCallers(c, "C07.HINT.CALLERS")
 			ruleArith(c, "C07.") // the hinted index converts back to the hinted block only if AddPrefixes neither wraps nor reports a spurious overflow
@@ -101,6 +101,7 @@ func init() {
 			ruleRangeRestart(c, "C02.RANGE.RESTART")
 			ruleDBLoad(c, "C02.") // "with restarts in between": the restored map must be keyed like the handler's lookups
 			ruleGuardedBy(c, "C02.", "range.")
+			ruleLinMap(c, "C02.") // "in range": the IPv4 allocator's index↔address maps and bitmap size are exact
 			c.R.Floor("C02.RANGE.LOOKUP-FIRST", 1)
 			c.R.Floor("C02.RANGE.INSERT", 1)
 			c.R.Floor("C02.RANGE.EXHAUST", 1)
@@ -194,7 +195,8 @@ func init() {
 		Run: func(c *Ctx) {
 			ruleLinMap(c, "C05.")
 			ruleSizeCap(c, "C05.")
-			ruleAlloc(c, "C05.", map[string]bool{"FULL": true, "SAMEINDEX": true})
+			ruleAlloc(c, "C05.", map[string]bool{"FULL": true, "SAMEINDEX": true, "TESTSET": true, "LOCK": true}) // "exactly N": no block is handed out twice, none is lost
+			ruleArith(c, "C05.") // every index of the pool must convert to an address (no spurious overflow)
 			c.R.Floor("C05.LINMAP", 3)
 			c.R.Floor("C05.SIZE", 1)
 			c.R.Floor("C05.CAP", 1)
